@@ -136,6 +136,19 @@ def big_call(fn, *args):
 _BOOTSTRAPPED = False
 
 
+def _purge_preloaded_basilisp() -> None:
+    """If a `basilispbootstrap.pth` happens to be installed in site-packages (the repository's own CLI tests install one
+    for a moment), the interpreter starts with basilisp already initialised from the default native module. Forget that
+    copy completely so that the working tree is bootstrapped again with the native module built from /repo/rust."""
+    if not any(m == "basilisp" or m.startswith("basilisp.") for m in sys.modules):
+        return
+    for m in [m for m in sys.modules if m == "basilisp" or m.startswith("basilisp.")]:
+        del sys.modules[m]
+    sys.meta_path[:] = [f for f in sys.meta_path if not type(f).__module__.startswith("basilisp")]
+    sys.path_importer_cache.clear()
+    importlib.invalidate_caches()
+
+
 def bootstrap(native: bool = True, verbose: bool = False) -> None:
     """Import basilisp.core compiled from the current sources (no byte-code cache)."""
     global _BOOTSTRAPPED
@@ -148,6 +161,7 @@ def bootstrap(native: bool = True, verbose: bool = False) -> None:
         sys.path.insert(0, src)
     sys.dont_write_bytecode = True
     t0 = time.time()
+    _purge_preloaded_basilisp()
     if native:
         preload_native(ensure_native(verbose))
     import basilisp  # noqa
